@@ -301,13 +301,11 @@ def cases(tier, seed=0):
         out += [regression_case(1, 1, 3, timeout=3000),
                 regression_case(2, 1, 3, concrete=("Sw", "M", "Sy"), timeout=3000),
                 regression_case(2, 2, 2, concrete=("Sw", "M", "Sy"), timeout=3000),
-                regression_case(2, 2, 2, concrete=("Sw", "Sy"), timeout=3000),
                 regression_case(2, 1, 2, concrete=("Sw",), timeout=3000),
                 regression_case(3, 1, 2, concrete=("Sw", "M", "Sy"), timeout=3000),
                 kalman_case(1, 1, 3, timeout=3000),
                 kalman_case(2, 2, 2, concrete=("A", "Q", "C", "R", "S0"), timeout=3000),
                 kalman_case(2, 1, 3, concrete=("A", "Q", "C", "R", "S0"), timeout=3000),
-                kalman_case(2, 1, 2, concrete=("A", "C", "R", "S0"), timeout=3000),
                 kalman_case(2, 1, 2, concrete=("Q", "C", "R", "S0"), timeout=3000),
                 regression_case(1, 2, 2, concrete=("Sy",), timeout=3000),
                 kalman_case(2, 1, 2, concrete=("A", "Q", "C", "S0"), timeout=3000),
